@@ -126,7 +126,8 @@ def gen_script(rng):
         elif r < 0.85:
             script.append(("send", rng.choice(VALS)))
         else:
-            script.append(("throw", rng.choice(["E1", "E2", "CE", "BE", "RT", "FE"])))
+            # KeyboardInterrupt / SystemExit: thrown by the raw drive only (a Task re-raises them out of the loop)
+            script.append(("throw", rng.choice(["E1", "E2", "CE", "BE", "RT", "FE", "KI", "SE"])))
     return script
 
 
@@ -507,7 +508,10 @@ def judge(case):
     second = any(o.startswith("pend") and i + 1 < len(lines) and lines[i + 1].startswith("call")
                  for i, o in enumerate(nouts))
     last_pending = bool(nouts) and nouts[-1].startswith("pend")
-    if bad is None and lines and not second and not last_pending:
+    interrupts = any(ln in ("throw KI", "throw SE") for ln in lines)
+    if interrupts:
+        tags.add("KeyboardInterrupt/SystemExit-into-suspended-consumer")
+    if bad is None and lines and not second and not last_pending and not interrupts:
         res = run_task(case, lines, nat.acts)
         tags.add("driven-by-task")
         if res["n"] != res["g"]:
